@@ -38,7 +38,7 @@ FailedRead(op) ==
 
 Recover ==
   /\ present' \in {(present \ D) \cup A : D \in SUBSET limbo, A \in SUBSET limbo}
-  /\ limbo' = {}
+  /\ UNCHANGED limbo      \* a later, different rebuild (reopen vs. re-index from the packs) may decide again
   /\ reply' = FailedReply("recover")
   /\ UNCHANGED <<size, caps>>
 
@@ -49,12 +49,19 @@ OkFetch(b) == Fetch(b) /\ UNCHANGED limbo
 OkSubFetch(b, off, len) == SubFetch(b, off, len) /\ UNCHANGED limbo
 OkStat(S) == Stat(S) /\ UNCHANGED limbo
 OkEnumerate(a, l) == Enumerate(a, l) /\ UNCHANGED limbo
+(* StreamBlobs walks the primary data, the other reads go through the index: for a blob in limbo the two may
+   disagree (a complete but unindexed record is streamed; an x-ed header whose index row survived is not). The
+   property only demands that acknowledged blobs are streamed intact and nothing torn is presented. *)
+OkStream == /\ \E X \in SUBSET limbo :
+                 reply' = R("stream", "ok", 0, StatOf((present \ limbo) \cup X, size, Blobs))
+            /\ UNCHANGED <<present, size, caps, limbo>>
 
 NextF == \/ \E b \in Blobs : OkReceive(b) \/ OkFetch(b) \/ FailedReceive(b)
          \/ \E b \in Blobs, off \in 0..2, len \in 0..2 : OkSubFetch(b, off, len)
          \/ \E S \in SUBSET Blobs : OkStat(S) \/ (S # {} /\ (OkRemove(S) \/ FailedRemove(S)))
          \/ \E a \in 0..MaxCursor, l \in 1..MaxLimit : OkEnumerate(a, l)
-         \/ \E op \in {"fetch", "subfetch", "stat", "enum"} : FailedRead(op)
+         \/ \E op \in {"fetch", "subfetch", "stat", "enum", "stream"} : FailedRead(op)
+         \/ OkStream
          \/ Recover
 SpecF == Init /\ limbo = {} /\ [][NextF]_fvars
 
